@@ -84,6 +84,8 @@ def api_stage(ev, prop, tier, seed):
     cases = os.path.join(WORK, f"{prop}-api-{os.getpid()}.cases")
     r = run_tlc("Api", env={"VERIF_TIER": tier, "VERIF_SEED": str(seed)}, cases_path=cases, timeout=900, workers=4)
     ev.add_tlc("Api", r, "invariant AlwaysReturnable, liveness EveryCallReturns, ASSUME NestValid; exports the extreme inputs")
+    rl = run_tlc("Evaluator", cfg="Evaluator_live", env={"VERIF_UNIVERSE": "C01", "VERIF_TIER": "quick", "VERIF_SEED": str(seed)}, timeout=900, workers=8)
+    ev.add_tlc("Evaluator[C01] liveness", rl, "SPECIFICATION Spec with weak fairness; PROPERTY Terminates: every evaluation of a parsed query reaches phase done")
     gcases = os.path.join(WORK, f"{prop}-apig-{os.getpid()}.cases")
     rg = run_tlc("Grammar", env={"VERIF_GRAMMAR": "C07", "VERIF_TIER": "quick", "VERIF_SEED": str(seed)},
                  cases_path=gcases, timeout=1500)
